@@ -29,7 +29,7 @@ def info(tier):
         "rule": "scalar recipes (directed families x 4 V-relations; random grammar depth<=3, |V|<=7); all n^2 entries of "
         "compute_hessian evaluated, and compile_hessian output, at 2 regular points (margin>=0.05) vs second-order jet "
         "reference; H=H^T asserted; non-trivial = >=2 operator nodes",
-        "required_cells": [f"{fam}|{v}" for fam, _ in X.directed_families() for v in X.VRELS],
+        "required_cells": [f"{fam}|{v}" for fam, _ in X.directed_families() for v in X.VRELS] + [f"shared-subexpressions|{v}" for v in X.VRELS],
         "assumptions": ["regular points with margin >= 0.05", "jet reference validated by selftest (differences of first-order jets)"],
     }
 
@@ -41,8 +41,11 @@ def run_case(case, rec):
     D = R.Decls(decls)
     fam, vrel = case["family"], case["vrel"]
     cell = f"{fam}|{vrel}"
+    B.SHARE[0] = bool(case.get("share"))
+    if B.SHARE[0]:
+        cell = f"shared-subexpressions|{vrel}"
     n = len(V)
-    rec.case({"d": decls, "n": node, "V": V}, nontrivial=A.n_ops(node) >= 2)
+    rec.case({"d": decls, "n": node, "V": V, "s": B.SHARE[0]}, nontrivial=A.n_ops(node) >= 2)
     try:
         b = B.Builder(decls)
         e = b.S(node)
@@ -165,6 +168,10 @@ def run(ctx, rec):
             c = X.finish_case(rng, X.D0, node, vrel, fam, n_points=2, margin=0.05)
             if c is not None and len(c["V"]) <= 18:
                 run_case(c, rec)
+                if i % 2 == 0:
+                    sc = X.shared_case(rng, c, form=(i // 2) % len(X.DAG_FORMS))
+                    if sc is not None:
+                        run_case(sc, rec)
     n = 0
     while n < N_RANDOM[ctx.tier] and not rec.out_of_time():
         n += 1
@@ -173,6 +180,10 @@ def run(ctx, rec):
             rec.events["skipped"] += 1
             continue
         run_case(c, rec)
+        if n % 6 == 0:
+            sc = X.shared_case(rng, c)
+            if sc is not None:
+                run_case(sc, rec)
 
 
 def replay(w, rec):
